@@ -78,6 +78,10 @@ func shapeStr(s []int) string {
 	return out
 }
 
+// canonicalizing is set (single-threaded) around the re-run that makes the
+// reported input tier-independent.
+var canonicalizing bool
+
 // hostile runs one hostile case and records a failure.
 func hostile(r *ev.Run, fn string, b []byte, shape []int) {
 	if pa := predictAlloc(fn, b, shape); pa > int64(64<<10+len(b)) {
@@ -92,6 +96,9 @@ func hostile(r *ev.Run, fn string, b []byte, shape []int) {
 		// executed below; measured for real (sequentially) when it is the
 		// smallest candidate of its decoder.
 		fail("decode-alloc/"+fn, c.Hex+"/"+shapeStr(shape), c, "pending measurement")
+		if canonicalizing {
+			return // only the choice of the reported input is at stake here
+		}
 	}
 	what, panicked := checkHostile(fn, b, shape)
 	if what == "" {
@@ -111,7 +118,7 @@ func hostile(r *ev.Run, fn string, b []byte, shape []int) {
 
 func main() {
 	r := ev.Start("C15")
-	r.Rule("exhaustive over explicit alphabets: VLQ values (all n<2^21 + 2^k±1, S(k)±2), amounts (all <10^6 + d·10^e±1 + extremes), scripts (6 special forms × valid/invalid curve points × parity, near misses, every raw length 0..130 and around 2^7/2^14), utxo/stxo entries (heights × coinbase × amounts × script classes), spend journals (every list of ≤3 txs with 0..3 inputs × per-input alphabet), legacy v0 entries, best-state and block-index rows; decoders on every byte string of length ≤3, the VLQ-overflow family at every VLQ position, every truncation and single-byte substitution of valid records. distinct_nontrivial counts structured cases individually (scripts, entries, journals, rows) and bulk numeric/hostile cases by (decoder, input length, outcome class)")
+	r.Rule("exhaustive over explicit alphabets: VLQ values (all n<2^21 + 2^k±1, S(k)±2), amounts (all <10^6 + d·10^e±1 + extremes), scripts (6 special forms × valid/invalid curve points × parity, near misses, every raw length 0..130 and around 2^7/2^14), utxo/stxo entries (heights × coinbase × amounts × script classes), spend journals (every list of ≤3 txs with 0..3 inputs × per-input alphabet), legacy v0 entries, best-state and block-index rows; decoders on every byte string of length ≤3, the VLQ-overflow family at every VLQ position, every truncation and single-byte substitution of valid records. distinct_nontrivial counts structured cases individually (scripts, entries, journals, rows) and boundary values individually, and the bulk numeric/hostile ranges only by class (VLQ length; decoder × input length; decoder × overflow-run length k) — the bulk case counts are in the named counters")
 	r.Assume("math/big (ModSqrt, Exp) and crypto/sha256 of the Go standard library")
 	r.Assume("the record formats are those documented in the comments of compress.go / chainio.go / upgrade.go (valid-pubkey-only special forms, as btcd documents, not Core's laxer compressed-key rule)")
 	r.Assume("amount compression is only required to be lossless where the documented 64-bit formula does not wrap (amount*9 < 2^64, i.e. every amount <= 2.04e18; the money supply is 2.1e15); above that btcd must still equal the documented formula mod 2^64, as Core does")
@@ -690,6 +697,59 @@ func main() {
 	bounds["alloc"] = fmt.Sprintf("%d decoder calls measured with runtime.MemStats.TotalAlloc (batches of 32, offending batches re-measured per call): every byte string of length <=1, the overflow family restricted to c in {80,81,c0,fe,ff}, t in {00,7f}, every 97th truncation case: bound 64 KiB + input length per call", nAlloc)
 
 	phase("alloc")
+	// ---- tier-independent choice of the reported hostile input ----
+	// The reported input of a decode-panic / decode-alloc group is the smallest
+	// failing one (shortest, then lexicographic).  The quick tier enumerates
+	// fewer terminator bytes than the thorough tier, so to make the violation
+	// key identical in both tiers the full (thorough) overflow family is re-run
+	// here, restricted to the length of the group's current minimum.
+	if !thorough {
+		type fl struct {
+			fn  string
+			min string // current minimum of one group (raw bytes)
+		}
+		var want []fl
+		for g, f := range fails {
+			if strings.HasPrefix(g, "decode-panic/") || strings.HasPrefix(g, "decode-alloc/") {
+				want = append(want, fl{f.c.Fn, string(unhex(f.c.Hex))})
+			}
+		}
+		type cand struct {
+			fn string
+			b  []byte
+		}
+		var cands []cand
+		if len(want) > 0 {
+			overflowFamily(true, func(b []byte) {
+				for _, w := range want {
+					for _, pre := range hostilePrefixes[w.fn] {
+						if len(pre)/2+len(b) != len(w.min) {
+							continue
+						}
+						// only inputs that would replace the current minimum
+						if c := append(unhex(pre), b...); string(c) <= w.min {
+							cands = append(cands, cand{w.fn, c})
+						}
+					}
+				}
+			})
+		}
+		canonicalizing = true
+		ev.Par(len(cands), workers, func(i int) {
+			c := cands[i]
+			if c.fn == "deserializeSpendJournalEntry" {
+				for _, sh := range hostileShapes {
+					hostile(r, c.fn, c.b, sh)
+				}
+				return
+			}
+			hostile(r, c.fn, c.b, nil)
+		})
+		canonicalizing = false
+		r.Add("canonicalization_reruns", int64(len(cands)))
+	}
+	phase("canonicalize")
+
 	r.Set("bounds", bounds)
 	r.Set("phase_seconds", phases)
 
